@@ -34,7 +34,7 @@ pub fn stub_uuid() -> uuid::Uuid {
 /// An empty parameter set; harnesses insert what the constructor would have inserted.
 pub fn mk_params(name: &str) -> ParsedParameters {
     ParsedParameters {
-        name: kstring(name),
+        name: if name.is_empty() { String::new() } else { kstring(name) },
         boolean: Default::default(),
         natural: Default::default(),
         integer: Default::default(),
@@ -130,4 +130,56 @@ pub fn kstring(s: &str) -> String {
 /// The stub keeps the panic, drops the message.
 pub fn stub_unwrap_failed(_msg: &str, _error: &dyn core::fmt::Debug) -> ! {
     panic!("called `Result::unwrap()` on an `Err` value")
+}
+
+/// A `String` that borrows a static literal (never dropped: callers `mem::forget` the owner).
+/// Its bytes are a constant static array, so `match s.as_str()` resolves during symbolic
+/// execution exactly as for a literal.
+pub fn sstring(s: &'static str) -> String {
+    unsafe { String::from_raw_parts(s.as_ptr() as *mut u8, s.len(), s.len()) }
+}
+
+/// A context that offers nothing: kernels under test must not depend on it.
+pub struct NullCtx;
+impl Context for NullCtx {
+    fn new() -> Self {
+        NullCtx
+    }
+    fn op(&mut self, _definition: &str) -> Result<OpHandle, Error> {
+        Err(Error::General("NullCtx"))
+    }
+    fn apply(&self, _op: OpHandle, _direction: Direction, _operands: &mut dyn CoordinateSet) -> Result<usize, Error> {
+        Err(Error::General("NullCtx"))
+    }
+    fn globals(&self) -> BTreeMap<String, String> {
+        BTreeMap::new()
+    }
+    fn steps(&self, _op: OpHandle) -> Result<&Vec<String>, Error> {
+        Err(Error::General("NullCtx"))
+    }
+    fn params(&self, _op: OpHandle, _index: usize) -> Result<ParsedParameters, Error> {
+        Err(Error::General("NullCtx"))
+    }
+    fn register_op(&mut self, _name: &str, _constructor: OpConstructor) {}
+    fn register_resource(&mut self, _name: &str, _definition: &str) {}
+    fn get_op(&self, _name: &str) -> Result<OpConstructor, Error> {
+        Err(Error::General("NullCtx"))
+    }
+    fn get_resource(&self, _name: &str) -> Result<String, Error> {
+        Err(Error::General("NullCtx"))
+    }
+    fn get_blob(&self, _name: &str) -> Result<Vec<u8>, Error> {
+        Err(Error::General("NullCtx"))
+    }
+    fn get_grid(&self, _name: &str) -> Result<std::sync::Arc<dyn Grid>, Error> {
+        Err(Error::General("NullCtx"))
+    }
+}
+
+/// Parameter set whose `name` is a static-backed string (resolved by symbolic execution)
+pub fn mk_params_s(name: &'static str) -> ParsedParameters {
+    let mut p = mk_params("");
+    let old = std::mem::replace(&mut p.name, sstring(name));
+    std::mem::forget(old);
+    p
 }
